@@ -56,6 +56,7 @@ func sameContract(a, b types.V2FileContract) bool {
 
 func newLifecycleSession(main *env, c Case, kind lifeKind) *session {
 	e := main.lifeEnv()
+	e.tc = e.transport(c.SameKey)
 	s := &session{e: e, c: c}
 	e.net.SetProxy(nil)
 	e.mine(1) // confirm whatever the previous case left in the pool
@@ -141,16 +142,16 @@ func newLifecycleSession(main *env, c Case, kind lifeKind) *session {
 	s.call = func(ctx context.Context) (any, error) {
 		switch kind {
 		case lifeForm:
-			r, err := rhp4.RPCFormContract(ctx, e.net, e.cm, e.signer, cs, e.prices, e.hostKey.PublicKey(), hostAddr, formParams)
+			r, err := rhp4.RPCFormContract(ctx, e.tc, e.cm, e.signer, cs, e.prices, e.hostKey.PublicKey(), hostAddr, formParams)
 			return result{r.Contract, r.FormationSet, r.Cost}, err
 		case lifeRenew:
-			r, err := rhp4.RPCRenewContract(ctx, e.net, e.cm, e.signer, cs, e.prices, hostAddr, existing.Revision, renewParams)
+			r, err := rhp4.RPCRenewContract(ctx, e.tc, e.cm, e.signer, cs, e.prices, hostAddr, existing.Revision, renewParams)
 			return result{r.Contract, r.RenewalSet, r.Cost}, err
 		case lifeRefreshFull:
-			r, err := rhp4.RPCRefreshContractFullRollover(ctx, e.net, e.cm, e.signer, cs, e.prices, hostAddr, existing.Revision, refreshParams)
+			r, err := rhp4.RPCRefreshContractFullRollover(ctx, e.tc, e.cm, e.signer, cs, e.prices, hostAddr, existing.Revision, refreshParams)
 			return result{r.Contract, r.RenewalSet, r.Cost}, err
 		default:
-			r, err := rhp4.RPCRefreshContractPartialRollover(ctx, e.net, e.cm, e.signer, cs, e.prices, hostAddr, existing.Revision, refreshParams)
+			r, err := rhp4.RPCRefreshContractPartialRollover(ctx, e.tc, e.cm, e.signer, cs, e.prices, hostAddr, existing.Revision, refreshParams)
 			return result{r.Contract, r.RenewalSet, r.Cost}, err
 		}
 	}
@@ -293,6 +294,8 @@ func newLifecycleSession(main *env, c Case, kind lifeKind) *session {
 				flipSig(&renewal.HostSignature)
 			case "swapFromOtherExchange": // a valid host signature -- over the contract, not the renewal
 				renewal.HostSignature = renewal.NewContract.HostSignature
+			case "transportKey": // signed with the transport identity's key, not the contract's host key
+				renewal.HostSignature = e.transportKey.SignHash(cs.RenewalSigHash(negRenewal))
 			default:
 				return errUnknownFault
 			}
@@ -304,6 +307,8 @@ func newLifecycleSession(main *env, c Case, kind lifeKind) *session {
 				flipSig(&fc.HostSignature)
 			case "swapFromOtherExchange": // a valid host signature over the previous revision / the price table
 				fc.HostSignature = e.contract.Revision.HostSignature
+			case "transportKey":
+				fc.HostSignature = e.transportKey.SignHash(cs.ContractSigHash(negotiated))
 			default:
 				return errUnknownFault
 			}
